@@ -20,6 +20,7 @@ use crate::bucket::stream_index::{
     LEN_SIZE, OFFSET_SIZE, PARTITION_KEY_SIZE, RECORD_SIZE, StreamIndexRecord, VERSION_SIZE,
 };
 use crate::error::{EventValidationError, StreamIndexError, ThreadPoolError};
+use crate::id::get_uuid_flag;
 use crate::{BLOOM_SEED, STREAM_ID_SIZE, StreamId};
 
 const AVG_EVENT_SIZE: usize = 350;
@@ -174,6 +175,11 @@ impl OpenStreamIndex {
 
     /// Hydrates the index from a reader.
     pub fn hydrate(&mut self, reader: &mut BucketSegmentReader) -> Result<(), StreamIndexError> {
+        // Events of a multi-event transaction only count once its commit record is in the log: a
+        // crash can leave the events of the last transaction without it, and those events were
+        // never acknowledged (readers skip them, so the indexes must too)
+        let mut pending: Vec<(StreamId, Uuid, u64, u64)> = Vec::new();
+        let mut pending_transaction_id = Uuid::nil();
         let mut reader_iter = reader.iter();
         while let Some(record) = reader_iter.next_record()? {
             match record {
@@ -182,11 +188,27 @@ impl OpenStreamIndex {
                     partition_key,
                     stream_id,
                     stream_version,
+                    transaction_id,
                     ..
                 }) => {
-                    self.insert(stream_id, partition_key, stream_version, offset)?;
+                    if get_uuid_flag(&transaction_id) {
+                        self.insert(stream_id, partition_key, stream_version, offset)?;
+                    } else {
+                        if transaction_id != pending_transaction_id {
+                            pending.clear();
+                            pending_transaction_id = transaction_id;
+                        }
+                        pending.push((stream_id, partition_key, stream_version, offset));
+                    }
                 }
-                Record::Commit(_) => {}
+                Record::Commit(commit) => {
+                    if commit.transaction_id == pending_transaction_id {
+                        for (stream_id, partition_key, stream_version, offset) in &pending {
+                            self.insert(stream_id.clone(), *partition_key, *stream_version, *offset)?;
+                        }
+                    }
+                    pending.clear();
+                }
             }
         }
 
